@@ -47,6 +47,7 @@ pub const SESSIONS: &[(&str, &str)] = &[
     ("single_statement_blocks", "x := 1\n{ x := 2 }\nx\nok := true\nif ok { x := 3 }\nx\nif ok { y := 4 } else { y := 5 }\nz := { x := 6 }\n(x, z)\nfor e in [7]~ { x := e }\nx\nw := mut 2\nwhile *w > 0 { w -= 1 }\nk := (v: int) -> int { { x := v } return x }\nk(9)\n(x, *w)"),
     ("any_params", "tagged := (tag: any, n: int) -> int { return n + 1 }\ntagged(1, 2)\ntri := (a: int, b: any, c: string) -> string { return c }\ntri(1, 2.5, \"x\")\nanyfirst := (a: any, b: [int], c: (int, string)) -> int { return std.len(b) + c.0 }\nanyfirst((), [1], (1, \"s\"))\nlast := (n: int, rest: any) -> int { return n }\nlast(1, \"x\")\nfour := (a: string, b: any, c: any, d: bool) -> bool { return d }\nfour(\"s\", 1, 2, true)"),
     ("match_value_arms", "id := (x: int) -> int { return x }\nv := id(5)\nr := match v { 5 => \"five\", n: int => \"int\", }\nr\nw := id(6)\nr2 := match w { 5, 7 => \"a\", 6 => \"six\", => \"other\", }\nr2\ns := \"k\"\nr3 := match s { \"j\", \"k\" => 1, t: string => 2, }\nr3\nu := [v, s]\nr4 := match u { [5, \"k\"] => 1, a: [int|string] => 2, }\n(r, r2, r3, r4)"),
+    ("wide_cells", "wide := mut int|float 5\nnarrow := mut 5\nanyc := mut any 1\nread_wide := (c: mut (int|float)) -> int|float { return *c }\nread_wide(wide)\nread_narrow := (c: mut int) -> int { return *c + 1 }\nread_narrow(narrow)\nread_any := (c: mut any) -> any { return *c }\nread_any(anyc)\nput := (c: mut (int|float), v: float) -> float { return c = v }\nput(wide, 2.5)\n(*wide, *narrow, *anyc)"),
     ("own_name_param", "f := (f: int, g: int) -> int { return f + g }\nf(1, 2)\ng := (x: int) -> int { g := x + 1; return g }\ng(1)\ng(2)"),
 ];
 
@@ -665,6 +666,20 @@ pub fn run_scenario(sc: &Scenario) -> RunReport {
                                     vectors.push(other);
                                 }
                             }
+                        }
+                    }
+                }
+                // every top-level cell of the session offered to every cell parameter (declared types
+                // wider / narrower than the parameter's: `mut T` is invariant on both routes)
+                for (pos, pt) in ft.params.iter().enumerate() {
+                    if !matches!(pt, Type::Mut(_)) {
+                        continue;
+                    }
+                    for cn in names.iter() {
+                        if let (Some(Variable::Mut(_)), Some(b @ Variable::Mut(_))) = (interp.get_variable(cn), binterp.get_variable(cn)) {
+                            let mut other = good.clone();
+                            other[pos] = (b.clone(), cn.clone());
+                            vectors.push(other);
                         }
                     }
                 }
